@@ -139,7 +139,12 @@ def compare_read(res, what, case, py, js, mode):
             res.violation('reader-error-differs', '%s: python error %r (records %r), js(%s) error %r (records %r)' % (what, py['error'], py['records'], mode, jerr, js['records']), case)
         return
     if py['records'] != js['records'] or py['header'] != js['header']:
-        res.violation('reader-records-differ', '%s: python records %r header %r; js(%s) records %r header %r' % (what, py['records'], py['header'], mode, js['records'], js['header']), case)
+        if len(py['records'] or []) > 200:
+            k = next((i for i, (a, b) in enumerate(zip(py['records'], js['records'])) if a != b), min(len(py['records']), len(js['records'])))
+            res.violation('reader-records-differ', 'a file of %d bytes: python %d records, js(%s) %d records; first difference at record %d: python %r, js %r' % (
+                len(bytes.fromhex(case['bytes_hex'])), len(py['records']), mode, len(js['records']), k + 1, py['records'][k:k + 1], js['records'][k:k + 1]), dict(case, bytes_hex=case['bytes_hex'][:200] + '...'))
+        else:
+            res.violation('reader-records-differ', '%s: python records %r header %r; js(%s) records %r header %r' % (what, py['records'], py['header'], mode, js['records'], js['header']), case)
     elif warn_multiset(py['warnings']) != warn_multiset(js['warnings']):
         res.violation('reader-warnings-differ', '%s: python warnings %r; js(%s) warnings %r' % (what, py['warnings'], mode, js['warnings']), case)
 
@@ -222,13 +227,22 @@ def leg_files_special(ns, node, res, spec):
         for stream in (False, True):
             reqs.append({'bytes_hex': bad.hex(), 'chunks': [len(bad)] if stream else None, 'encoding': 'utf-8', 'delim': ',', 'policy': 'quoted', 'has_header': False, 'comment_prefix': None})
             meta.append((bad, 'utf-8', ',', 'quoted', False, None, stream))
+    # two long files of very short records (several 64 KiB chunks of more than 10000 records each) through the JS stream reader (real chunking) and bulk reader
+    if spec.get('i', 0) % 2 == 0:
+        for nrec, cell in ((40000, lambda i: '%d' % (i % 97)), (30000, lambda i: '%d,x' % i)):
+            data = ''.join(cell(i) + '\n' for i in range(nrec)).encode('utf-8')
+            n = len(data)
+            for stream in (False, True):
+                reqs.append({'bytes_hex': data.hex(), 'chunks': ([65536] * (n // 65536) + ([n % 65536] if n % 65536 else [])) if stream else None, 'encoding': 'utf-8', 'delim': ',', 'policy': 'quoted', 'has_header': False, 'comment_prefix': None, 'async_delivery': True})
+                meta.append((data, 'utf-8', ',', 'quoted', False, None, stream))
+            res.count('long_file_comparisons')
     out = node.call({'op': 'read_batch', 'cases': reqs})['results']
     for (data, enc, dlm, policy, header, comment, stream), o in zip(meta, out):
         res.evaluations += 1
         res.count('special_file_comparisons')
         py = py_read(ns, data, enc, dlm, policy, header, comment)
         case = {'leg': 'files', 'bytes_hex': data.hex(), 'encoding': enc, 'dlm': dlm, 'policy': policy, 'header': header, 'comment': comment, 'stream': stream}
-        compare_read(res, 'file %r (%s %s dlm %r header %s comment %r)' % (data, policy, enc, dlm, header, comment), case, py, o, 'stream' if stream else 'bulk')
+        compare_read(res, 'file %r (%s %s dlm %r header %s comment %r)' % (data[:300], policy, enc, dlm, header, comment), case, py, o, 'stream' if stream else 'bulk')
     res.sample({'leg': 'files-special', 'sample': samples[0]})
 
 
@@ -435,9 +449,9 @@ def run_shard(spec, res):
 
 def summarize(tier, seed, m):
     return {
-        'rule': 'split: exhaustive lines up to %d symbols over {a, quote, delimiter, space (+ first char of a multi-character delimiter)} x delimiters %r x policies x both preserve modes; quote: all fields up to length %d over the quoting alphabet; readers: exhaustive files up to %d characters over {a, quote, comma, space, LF, CR, #} x {simple, quoted, quoted_rfc} x comment prefix x header flag, python reader vs JS bulk (every third also vs JS stream), plus BOM / multi-byte / random Unicode files and invalid ones (stray and overlong bytes, surrogates, every multi-byte character cut to every proper prefix in front of ASCII, a delimiter, a line break, another character and the end of the file); cross: C10 tables written by both writers (identical bytes, identical warning kinds) and read by both readers; header: generated common-syntax select lists on empty tables x header/no header x join. distinct_nontrivial = inputs containing a special character (exhaustive legs) + distinct random cases.' % (SPLIT_LEN[tier], SPLIT_DELIMS, 4 if tier == 'quick' else 5, FILE_LEN[tier]),
+        'rule': 'split: exhaustive lines up to %d symbols over {a, quote, delimiter, space (+ first char of a multi-character delimiter)} x delimiters %r x policies x both preserve modes; quote: all fields up to length %d over the quoting alphabet; readers: exhaustive files up to %d characters over {a, quote, comma, space, LF, CR, #} x {simple, quoted, quoted_rfc} x comment prefix x header flag, python reader vs JS bulk (every third also vs JS stream), plus two files of 30000 / 40000 very short records (several chunks of more than 10000 records each, stream and bulk), BOM / multi-byte / random Unicode files and invalid ones (stray and overlong bytes, surrogates, every multi-byte character cut to every proper prefix in front of ASCII, a delimiter, a line break, another character and the end of the file); cross: C10 tables written by both writers (identical bytes, identical warning kinds) and read by both readers; header: generated common-syntax select lists on empty tables x header/no header x join. distinct_nontrivial = inputs containing a special character (exhaustive legs) + distinct random cases.' % (SPLIT_LEN[tier], SPLIT_DELIMS, 4 if tier == 'quick' else 5, FILE_LEN[tier]),
         'exhaustive': True,
-        'required': ['split_comparisons', 'quote_comparisons', 'file_comparisons_bulk', 'file_comparisons_stream', 'special_file_comparisons', 'cross_roundtrips', 'header_comparisons'],
+        'required': ['long_file_comparisons', 'split_comparisons', 'quote_comparisons', 'file_comparisons_bulk', 'file_comparisons_stream', 'special_file_comparisons', 'cross_roundtrips', 'header_comparisons'],
         'assumptions': ['differential only: a defect shared by both ports is invisible here (C10-C12, C07 cover those with reference models)',
                         'warnings are compared as multisets of (kind, numbers in the text); wording and order are not part of the statement'],
     }
